@@ -13,6 +13,7 @@ package c18
 
 import (
 	"fmt"
+	"os"
 	"testing"
 	"time"
 
@@ -80,6 +81,16 @@ func TestCheck(t *testing.T) {
 		res.Write()
 		return
 	}
+	// groups (check.json): "bulk" = the bulk paging scenarios in their own processes, "main" = everything
+	// else; without VERIF_GROUP (run by hand) both.
+	group := os.Getenv("VERIF_GROUP")
+	if group == "bulk" || group == "" {
+		runBulk(res, nil)
+	}
+	if group == "bulk" {
+		res.Write()
+		return
+	}
 	runCold(res, tierConfs(), "", 0)
 	// Thorough tier: fair shares of the time budget (x1.25 slack): a space may run until now + remaining x (its number of histories / histories still to do), so that under
 	// time pressure every configuration still gets its shallow depths (opseq is breadth-first by depth) instead of
@@ -123,6 +134,13 @@ func tierConfs() []Conf {
 func replay(res *vk.Result, sps []*opseq.Space, rp map[string]any) {
 	r, _ := rp["replay"].(map[string]any)
 	name, _ := r["space"].(string)
+	if name == "bulk" {
+		kind, _ := r["kind"].(string)
+		mx, _ := r["max"].(float64)
+		n, _ := r["n"].(float64)
+		runBulk(res, &bulkCase{Kind: kind, Max: int(mx), N: int(n)})
+		return
+	}
 	if name == "client-cold-stat" {
 		conf, _ := r["conf"].(string)
 		n, _ := r["n"].(float64)
